@@ -385,6 +385,10 @@ extern "C" FILE* fopen64(const char* path, const char* mode) {
 namespace {
 inline void* alloc_checked(size_t n) {
   if (g.active) {
+    if (++g.allocs > g.max_allocs && !g.step_budget_exceeded && g.exit_jmp) {
+      g.step_budget_exceeded = true;
+      g.do_exit(99, "alloc-budget");
+    }
     if (n > g.alloc_cap) { g.fired["ALLOC_CAP"]++; throw std::bad_alloc(); }
     if (n >= (64u << 10)) {
       long idx = g.large_allocs++;
